@@ -114,3 +114,12 @@ func VerifNewInjected(sz uint) (w *Watcher, realFd int, injectFd int, err error)
 	go b.readEvents()
 	return &Watcher{b: b, Events: ev, Errors: errs}, fd, sp[1], nil
 }
+
+// VerifHoldMu takes the Watcher's bookkeeping mutex, the way a long-running Add, Remove or WatchList
+// holds it, and returns the function that releases it. Lets a scenario park the reader goroutine in
+// front of handleEvent while something else (Close, another Watcher) happens.
+func VerifHoldMu(w *Watcher) (release func()) {
+	b := w.b.(*inotify)
+	b.mu.Lock()
+	return b.mu.Unlock
+}
